@@ -28,6 +28,7 @@ type h2cx struct { // one connection of the peer
 	fr           *http2.Framer
 	flush        func() error
 	writeHeaders func(sid uint32, fields []field, end bool, frag int)
+	win          func() int64 // the peer's view of the client's connection-level receive window
 }
 
 type h2group struct {
